@@ -435,6 +435,12 @@ func (s *ProofStructure) VerifyProofStructure(g *gabikeys.PublicKey, p *Proof) b
 			uint(p.VResponses[i].BitLen()) > g.Params.Lm+g.Params.Lh+g.Params.Lstatzk+1 {
 			return false
 		}
+
+		// The commitments C_i must be invertible modulo N. If one of them is 0 modulo N, every product it occurs in is 0
+		// whatever the responses are: the relations it is part of would then hold vacuously, for any bound.
+		if new(big.Int).GCD(nil, nil, p.Cs[i], g.N).Cmp(big.NewInt(1)) != 0 {
+			return false
+		}
 	}
 
 	return true
